@@ -1,6 +1,6 @@
 (* C08 — table obligation ob_buffer_bounds: a fact about the source as extracted into Tables.v on this run, discharged by closed
    computation.  One obligation per file, so that a changed source un-discharges only the theorems that need this fact. *)
-From G08 Require Import Tables Cfg Spec Proofs V1Proofs InvProofs.
+From G08 Require Import Tables Cfg Spec Proofs V1Proofs InvProofs Safety.
 
 (* slices stay inside the 232-byte buffer (a slice beyond it would be a run-time panic) *)
 Lemma ob_buffer_bounds :
@@ -10,3 +10,7 @@ Lemma ob_buffer_bounds :
    c_addr_off src_cfg <= c_t4_parse_hi src_cfg /\ c_addr_off src_cfg <= c_t6_parse_hi src_cfg /\
    c_addr_off src_cfg <= c_t4_idx src_cfg - 1 /\ c_addr_off src_cfg <= c_t6_idx src_cfg - 1)%nat.
 Proof. vm_compute. repeat split; repeat constructor. Qed.
+
+(* the size of the buffer array and of the slice handed to hex.Dump, as Safety.no_panic needs them *)
+Lemma ob_bounds_exact : cfg_bounds_ok src_cfg.
+Proof. vm_compute. split; reflexivity. Qed.
